@@ -1,9 +1,11 @@
 mod c01;
 mod c14;
 mod gen;
+mod hist;
 mod net;
 mod targeted;
 mod util;
+mod witness;
 
 fn main() {
     let args: Vec<String> = std::env::args().collect();
@@ -12,6 +14,12 @@ fn main() {
         std::process::exit(2);
     }
     let prop = args[1].as_str();
+    if prop == "WITNESS" {
+        // adbharness WITNESS <PROP> <known_findings.json> <outdir>
+        std::panic::set_hook(Box::new(|_| {}));
+        witness::run(&args[2], &args[3], &args[4]);
+        return;
+    }
     let seed: u64 = args[2].parse().unwrap();
     let n: usize = args[3].parse().unwrap();
     let mut out = util::Out::new(&args[4]);
@@ -22,6 +30,8 @@ fn main() {
         "C01" => c01::run(seed, n, &mut out),
         "C04" => targeted::run_c04(seed, n, &mut out),
         "C05" => targeted::run_c05(seed, n, &mut out),
+        "C06" => hist::run(seed, n, &mut out, false),
+        "C07" => hist::run(seed, n, &mut out, true),
         "C13" => targeted::run_c13(seed, n, &mut out),
         "C15" => targeted::run_c15(seed, n, &mut out),
         _ => {
